@@ -63,6 +63,9 @@ structure PThread where
   hand : PullRes := .stop
   /-- outputs of `F` computed and not yet yielded by the generator -/
   pend : List Nat := []
+  /-- producer: further values carried by the `StopIteration` that ends its iterator (a source that
+  forwards an upstream queue's `StopIteration(*returned)` carries several) -/
+  more : List Nat := []
   /-- ghost: input values this producer pulled, in order -/
   pulled : List Nat := []
   /-- ghost: values this producer put into the queue, in order -/
@@ -105,6 +108,9 @@ def Cfg.producersDone (c : Cfg) : Bool := c.ths.all fun t => !t.isProd || t.q.pc
 
 def retOf (t : PThread) : Nat := match t.q.prog with | .producer _ r => r | _ => 0
 
+/-- the arguments of the `StopIteration` that ends the producer's iterator -/
+def retsT (t : PThread) : List Nat := retOf t :: t.more
+
 /-- `enqueue_from_iterator` is about to call `next(iterator)` (`q.pc = .eNext` just reached): the
 generator first yields what it still holds. -/
 def enterNext (tid : Tid) (t : PThread) : PThread :=
@@ -122,7 +128,7 @@ def failPull (s : Shared) (t : PThread) : Shared × PThread :=
 def afterPull (F : Nat → Option (List Nat)) (tid : Tid) (s : Shared) (t : PThread) (r : PullRes) :
     Shared × PThread :=
   match r with
-  | .stop => (s, { t with q := { t.q with pc := .tAcq, rets := [retOf t], reraise := none } })
+  | .stop => (s, { t with q := { t.q with pc := .tAcq, rets := retsT t, reraise := none } })
   | .item .fail => failPull s t
   | .item (.val v) =>
     let t1 := { t with pulled := t.pulled ++ [v] }
@@ -250,10 +256,12 @@ structure ProdSpec where
   sid : Nat
   useLock : Bool
   ret : Nat
+  /-- further return values (see `PThread.more`) -/
+  more : List Nat := []
   deriving Repr, Inhabited, DecidableEq
 
 def mkProducer (p : ProdSpec) : PThread :=
-  { q := { prog := .producer [] p.ret }, isProd := true, sid := p.sid, useLock := p.useLock }
+  { q := { prog := .producer [] p.ret }, isProd := true, sid := p.sid, useLock := p.useLock, more := p.more }
 
 def mkConsumer (batchMax : Nat) : PThread :=
   { q := { prog := .batchLoop batchMax false } }
